@@ -20,15 +20,15 @@ CHECKS = {
          "runtime monitor: every byte the router writes to a rawsocket puppet is parsed by an independent incremental frame parser (malformed frame, frame above the announced limit, undecodable payload, loss or reordering are violations); the handshake is checked against a reference for every hello/reply of a 3x256x4 set (exhaustive); sizes limit-1/limit/limit+1 in both directions, PING/PONG during traffic, reserved frame types, a cut at every byte offset and websocket fake-connection faults must leave other sessions served; a generated scenario replayed over all 7 attachments must give the same canonical per-session observations",
          "gorilla's own framing, TLS, compression and the HTTP upgrade are not exercised (the websocket peer is driven through a fake connection); the 512-byte client limit cannot carry a WELCOME and is only covered by the handshake table"),
  "C07": ("bubble", "exploration",
-         "stalled-reader scenarios; zero-virtual-delay oracle for every reply and delivery to reading sessions, retry-period bound, backlog bound after resume, bubble deadlock detector, +3 min drain",
-         "runtime monitor: sessions stop reading in every role (subscriber, meta subscriber, callee, caller) with small queues and socket buffers while readers exchange traffic; each reply/delivery to a reader must carry the virtual timestamp of its request (the quiescence point of the same instant), except for a callee that yielded to a blocked caller, which is held for at most the result-retry period; resumed sessions drain at most their queue bound; the bubble's all-blocked detector and a final drain decide freedom from wait cycles on the schedules produced",
+         "stalled-reader scenarios; zero-virtual-delay oracle for every reply and delivery to reading sessions, retry-period bound, backlog bound after resume, bubble deadlock detector, +3 min drain; concurrent closed-loop workload (churn + meta API + traffic, nobody stalled) with a completion oracle; live workload behind the real servers with a count bound on what is kept for a stalled client",
+         "runtime monitor: sessions stop reading in every role (subscriber, meta subscriber, callee, caller) with small queues and socket buffers while readers exchange traffic; each reply/delivery to a reader must carry the virtual timestamp of its request (the quiescence point of the same instant), except for a callee that yielded to a blocked caller, which is held for at most the result-retry period; resumed sessions drain at most their queue bound; the bubble's all-blocked detector and a final drain decide freedom from wait cycles on the schedules produced; every 4th case runs 6-8 closed loops concurrently (register/unregister and subscribe/unsubscribe churn, meta API callers, publisher, caller) and requires every loop to complete; every 16th case uses the live engine (router.RawSocketServer / router.WebsocketServer on unix and TCP sockets with OutQueueSize 1/4/16/default, the project's client transports): the messages kept for a subscriber that stopped reading are counted after it resumes and bounded by the configured queue + messages in hand + socket buffers, while the publisher's acknowledged publications (closed loop) must all be acknowledged",
          "the router's own meta session counts as a callee for the documented yield-retry exception; exact queue accounting only for in-process stalled peers"),
  "C08": ("bubble", "exploration",
-         "burst mode (no quiescence between concurrent senders) with unique (sender, counter) tokens; offline ordering/bracket checker over per-receiver logs",
+         "burst mode (no quiescence between concurrent senders) with unique (sender, counter) tokens; closed-loop callers and closed-loop register/unregister churn so that calls reach the dealer throughout; topics with event history; a caller blocked for 5 virtual seconds during progressive results; offline ordering/bracket/completeness checker over per-receiver logs",
          "runtime monitor: publishers, callers, reactive callees and churning subscribers/callees run concurrently over non-local transports with GOMAXPROCS varied; the per-receiver logs are checked offline for per-(publisher,topic,subscription) and per-(caller,callee) monotonicity, progressive-result order and the SUBSCRIBED/UNSUBSCRIBED and REGISTERED/UNREGISTERED brackets; evidence reports distinct interleavings seen",
          "schedules not produced are not covered; queues are sized so that legal overflow drops cannot look like reordering"),
  "C06": ("bubble", "fault_enumeration",
-         "Close/RemoveRealm injected at every step boundary and inside every step of a script; returns / no panic for 2 virtual hours / GOODBYE-or-EOF / clean refusal of later attaches / no goroutine left / bystander realm served",
+         "join storm at shutdown (30-150 clients sending HELLO as Close/RemoveRealm runs, GOMAXPROCS 1/2/4); a client on an application-provided unbuffered peer whose WELCOME is in flight at the shutdown; Close/RemoveRealm injected at every step boundary and inside every step of a script; returns / no panic for 2 virtual hours / GOODBYE-or-EOF / clean refusal of later attaches / no goroutine left / bystander realm served",
          "runtime monitor with fault enumeration: for each generated base script (calls with armed timers, publications, kills, a half-done handshake, a silent peer, a stalled subscriber with a tiny socket buffer) the shutdown is invoked at every step boundary and together with every step's message (exhaustive over those crash points for that script); the bubble's quiescence, deadlock and leak detection decide",
          "instants between two machine instructions are reached only statistically by the inside-step injections; evidence reports the number of injection points"),
  "C09": ("bubble", "exploration",
